@@ -159,7 +159,7 @@ func errType(err error) string {
 func expectedCalls(o *decl.Opt, occ []ref.Occ) []string {
 	var out []string
 	for _, oc := range occ {
-		if o.Type == decl.TFunc0 {
+		if o.Type == decl.TFunc0 || o.Type == decl.TFunc0E {
 			out = append(out, "")
 			continue
 		}
